@@ -14,8 +14,8 @@ import (
 	"path/filepath"
 	"reflect"
 	"runtime"
-	"strings"
 	"sort"
+	"strings"
 	"time"
 
 	"github.com/hedzr/is"
